@@ -38,7 +38,8 @@ def check(repo, tier):
     run.rule('D3', 'best-so-far bookkeeping (number_ev = 1): the returned eigenvalue and eigentensor stem from the same final micro eigen-solve of one sweep, and that '
              'sweep is the last one whose "closer to sigma" test succeeded')
     run.rule('D4', 'paired reorder: eigenvalues and eigenvectors of each micro solve are re-indexed by the same selector; the returned eigentensor satisfies the '
-             'class invariant, chains, and cores 1..d-1 are right-orthonormal factors')
+             'class invariant, chains, and cores 1..d-1 are right-orthonormal factors; when a member of the micro pencil is complex the cores are built from its '
+             'eigenvectors, not from their real parts (real=True asks for real eigenvalues only)')
     run.rule('D5', 'power_method: the Rayleigh quotient <x|A|x> / <x|B|x> is well-typed at TT level (conjugated bra), the inner solve gets the shifted operator')
     run.rule('D5b', 'power_method over the TT-level algebra (operators A, B uninterpreted, inner linear solve = exact solution): the returned eigentensor is the '
              'normalised inverse iterate  x_k = y/||y||,  (A - sigma B) y = B x_(k-1)   (B = I for the standard problem), and the returned eigenvalue is the '
